@@ -64,13 +64,13 @@ def make_profile(n, seats, lines, mults, extra='', names=None, tie_ranks=None):
     reader kept), then replace multipliers / nBallots / tieOrder by the given (symbolic) values.
     Returns (profile, kept_indices)."""
     from droop.profile import ElectionProfile
-    tags = [i + 1 for i in range(len(lines))]
+    tags = [1000 + i for i in range(len(lines))]     # unique, and large enough for the reader's ballots >= candidates rule
     text = blt_text(n, seats, lines, tags, extra, names)
     prof = ElectionProfile(data=text)
     kept = []
     total = 0
     for bl in list(prof.ballotLines) + list(prof.ballotLinesEqual):
-        i = bl.multiplier - 1
+        i = bl.multiplier - 1000
         kept.append(i)
         bl.multiplier = mults[i]
         total = total + mults[i]
